@@ -200,6 +200,29 @@ Definition dist_transpose (D : dmat) (rparts : list nat) : dmat :=
                       (seq 0 (psize cparts q)))))
          (seq 0 nr)).
 
+(* ---- product (lines 856-1069) ----
+   Row ia of C on rank r: walk the local entries of A's row, then the remote ones, in storage
+   order; for an entry (ca, va) walk row ca of B as its owner holds it (local entries, then remote
+   ones -- for a remote ca this is the row received through remote_rows); every product va*vb goes
+   to the LOCAL accumulator when B's column belongs to this rank, else to the REMOTE one; both
+   accumulators use the marker logic of spgemm_saad ([row_add]: first hit appends, later hits add). *)
+Definition prod_events (SB : list row) (ra : row) : row :=
+  flat_map (fun ea => map (fun eb => (fst eb, snd ea * snd eb)) (nth (fst ea) SB [])) ra.
+Definition accumulate (evs : row) : row := fold_left (fun acc e => row_add acc (fst e) (snd e)) evs [].
+Definition dist_product (DA DB : dmat) : dmat :=
+  let cpA := dm_cparts DA in
+  let cpB := dm_cparts DB in
+  let SB := concat (strips DB) in
+  mkDmat cpB
+    (map (fun r =>
+            let b := pbeg cpB r in
+            let p := psize cpB r in
+            let rowsA := strip_rows (pbeg cpA r) (nth r (dm_ranks DA) dflt_rank) in
+            mkRankMat
+              (mkCrs p (map (fun ra => accumulate (loc_row b p (prod_events SB ra))) rowsA))
+              (mkCrs (psum cpB) (map (fun ra => accumulate (rem_row b p (prod_events SB ra))) rowsA)))
+         (seq 0 (length cpA))).
+
 (* ---- remote_rows (lines 718-854): for every ghost column c of A's pattern, in idx order,
    the row c of B as its owner holds it (local entries in global numbering, then remote) ---- *)
 Definition dist_remote_rows (patsA : list cpat) (B : dmat) (r : nat) : list row :=
